@@ -163,6 +163,7 @@ func (fv *FV) call(e *Env, x *ast.CallExpr) Value {
 		if m, ok := libModels[fn.FullName()]; ok {
 			if v, ok := m(fv, e, x, recv, args); ok {
 				fv.trustedUsed["library model: "+fn.FullName()] = true
+				fv.applyBumps(e, fn, v) // ghost call counters also count modelled library calls
 				return v
 			}
 		}
@@ -336,6 +337,9 @@ func (fv *FV) opaqueCall(e *Env, x *ast.CallExpr, fn *types.Func, recv *Value, a
 // applyBumps increments the ghost call counters (bump:/bumpok: classes) of fn.
 func (fv *FV) applyBumps(e *Env, fn *types.Func, v Value) {
 	for _, b := range fv.eng.bumpsOf(fn) {
+		if b.in != "" && (fv.u == nil || fv.u.Spec == nil || fv.u.Spec.Dir != b.in) {
+			continue
+		}
 		gv := b.name
 		comp := "G$" + sanitize(gv)
 		if !fv.eng.ghostVarNamed(gv) {
@@ -945,13 +949,31 @@ func (fv *FV) applyContract(e *Env, x *ast.CallExpr, u *FuncUnit, recv *Value, a
 		fv.assume(e, t)
 		fv.trustedUsed["definitional predicate (\"the deterministic check accepts\") introduced by "+u.Name()+": "+cl.Text] = true
 	}
+	// ghost call counters also count calls of contracted callees - unless the
+	// contract itself accounts for the counter (names it in a modifies clause)
+	var rv Value
 	switch len(results) {
 	case 0:
-		return Value{}
 	case 1:
-		return results[0]
+		rv = results[0]
+	default:
+		rv = Value{K: kTuple, Tuple: results, Type: rt}
 	}
-	return Value{K: kTuple, Tuple: results, Type: rt}
+	if bs := fv.eng.bumpsOf(u.Fn); len(bs) > 0 {
+		own := false
+		for _, b := range bs {
+			short := b.name[strings.LastIndex(b.name, ".")+1:]
+			for _, cl := range c.Modifies {
+				if strings.Contains(cl.Text, short) {
+					own = true
+				}
+			}
+		}
+		if !own {
+			fv.applyBumps(e, u.Fn, rv)
+		}
+	}
+	return rv
 }
 
 // clauseLocal resolves a gh_local[T]("name") call of the clause being evaluated.
